@@ -17,3 +17,12 @@ Definition run (files : list (bytes * bytes)) (ss : list stmt) : run_result :=
   | RErr e p => RunErr e (p_loc p) (pcap_of p)
   | RPanic s _ => RunPanic s
   end.
+
+(** the whole pipeline on source bytes (src/cli.rs process_file) *)
+From RS Require Import Interp.Cli.
+Definition run_src (files : list (bytes * bytes)) (src : bytes) : run_result :=
+  match process_file catalogue class_table module_table (exec {| env_files := files |}) src with
+  | CliOk p => RunOk (pcap_of p) (rev (p_warnings p)) (rev (p_trace p))
+  | CliErr e l p => RunErr e l (pcap_of p)
+  | CliPanic s => RunPanic s
+  end.
